@@ -54,11 +54,66 @@ func safeInsertPositions(d *DeclSpec, p *Plan) []int {
 	return out
 }
 
+// posDeletionRequired: does the line lack a required positional argument once
+// its last positional word is taken away? (Derived from the declaration: the
+// innermost command's positional fields, their required marks, and the
+// all-required mark of the struct.)
+func posDeletionRequired(d *DeclSpec, p *Plan) bool {
+	var own *GroupSpec
+	if len(p.Chain) == 0 {
+		own = d.Root
+	} else {
+		cs := d.Commands
+		var c *CmdSpec
+		for _, n := range p.Chain {
+			c = findCmd(cs, n)
+			if c == nil {
+				return false
+			}
+			cs = c.Commands
+		}
+		own = c.Own
+	}
+	if own == nil || len(own.Pos) == 0 {
+		return false
+	}
+	nTok := 0
+	for _, t := range p.Toks {
+		switch t.Role {
+		case "pos":
+			nTok++
+		case "rest", "raw", "ddash":
+			return false // a further word would move up into the freed place
+		}
+	}
+	var scalars []*ArgSpec
+	var rest *ArgSpec
+	for _, a := range own.Pos {
+		if a.Kind == "[]string" {
+			rest = a
+		} else {
+			scalars = append(scalars, a)
+		}
+	}
+	k := nTok - len(scalars)
+	if k < 0 || nTok == 0 {
+		return false
+	}
+	if k > 0 {
+		return rest != nil && rest.Required != "" && k-1 < 1
+	}
+	if len(scalars) == 0 {
+		return false
+	}
+	last := scalars[len(scalars)-1]
+	return own.PosRequired || last.Required != ""
+}
+
 func unknownAccepted(d *DeclSpec) bool {
 	return d.Options&optIgnoreUnknown != 0 || d.UnknownHandler != ""
 }
 
-var faultKinds = []string{"unknown-long", "unknown-short", "unknown-in-cluster", "delete-arg", "bad-value", "bad-quote", "flag-with-arg", "delete-required",
+var faultKinds = []string{"bad-pos-value", "unknown-long", "unknown-short", "unknown-in-cluster", "delete-arg", "bad-value", "bad-quote", "flag-with-arg", "delete-required",
 	"delete-required-pos", "delete-cmd", "misspell-cmd", "help", "truncate", "insert-ddash", "env-unconvertible", "callee"}
 
 // genArgFault draws one fault for the plan; ok=false when the drawn kind does
@@ -92,6 +147,9 @@ func genArgFault(r *Rng, d *DeclSpec, p *Plan, twinCalls []Call) (f ArgFault, ok
 		}
 		if f.Kind != "help" && unknownAccepted(d) {
 			f.Expect = ""
+			if d.UnknownHandler == "fail" && d.Options&optIgnoreUnknown == 0 {
+				f.Expect = "handler error" // the handler's own error comes back (no *flags.Error type is documented for it)
+			}
 		}
 		return f, true
 	case "unknown-in-cluster":
@@ -102,6 +160,9 @@ func genArgFault(r *Rng, d *DeclSpec, p *Plan, twinCalls []Call) (f ArgFault, ok
 				f.Expect = "unknown flag"
 				if unknownAccepted(d) {
 					f.Expect = ""
+					if d.UnknownHandler == "fail" && d.Options&optIgnoreUnknown == 0 {
+						f.Expect = "handler error"
+					}
 				}
 				return f, true
 			}
@@ -181,6 +242,21 @@ func genArgFault(r *Rng, d *DeclSpec, p *Plan, twinCalls []Call) (f ArgFault, ok
 		}
 		f.Text = t.Name + bad
 		return f, true
+	case "bad-pos-value":
+		// a word that must fill an integer positional field does not convert
+		var cands []int
+		for i, t := range p.Toks {
+			if t.Role == "pos" && t.Kind == "int" {
+				cands = append(cands, i)
+			}
+		}
+		if len(cands) == 0 {
+			return f, false
+		}
+		f.Pos = cands[r.Intn(len(cands))]
+		f.Text = r.Pick([]string{"x!y", "12x", "1.5"})
+		f.Expect = "positional conversion" // (no *flags.Error type is documented for it)
+		return f, true
 	case "flag-with-arg":
 		var cands []int
 		for i, t := range p.Toks {
@@ -212,10 +288,12 @@ func genArgFault(r *Rng, d *DeclSpec, p *Plan, twinCalls []Call) (f ArgFault, ok
 		f.Expect = "required"
 		return f, true
 	case "delete-required-pos":
-		// judged only through the model-free oracles
 		for i := len(p.Toks) - 1; i >= 0; i-- {
 			if p.Toks[i].Role == "pos" {
 				f.Pos = i
+				if posDeletionRequired(d, p) {
+					f.Expect = "required"
+				}
 				return f, true
 			}
 		}
@@ -353,7 +431,7 @@ func applyArgFault(p *Plan, f ArgFault) []string {
 		if f.Pos >= len(toks) {
 			out = append(out, f.Text)
 		}
-	case "unknown-in-cluster", "bad-value", "bad-quote", "flag-with-arg", "misspell-cmd":
+	case "unknown-in-cluster", "bad-value", "bad-quote", "flag-with-arg", "misspell-cmd", "bad-pos-value":
 		for i, t := range toks {
 			if i == f.Pos {
 				out = append(out, f.Text)
